@@ -557,6 +557,58 @@ pub fn consistency(store: &AnnotationStore) -> Vec<(String, String)> {
             bad.push((format!("index/{}/{}", kind_of(&k), what), format!("{:?}: index has {:?}, forward references give {:?}", k, a, e)));
         }
     }
+    // the counting / membership shortcuts of the API answer what the iterators they abbreviate answer (C01)
+    {
+        let sc = guarded(std::panic::AssertUnwindSafe(|| -> Vec<(String, String)> {
+            let mut bad: Vec<(String, String)> = vec![];
+            let hs = |it: &mut dyn Iterator<Item = ResultItem<Annotation>>| -> Vec<usize> { it.map(|x| x.handle().as_usize()).collect() };
+            let mut total_by_map: BTreeMap<&'static str, usize> = BTreeMap::new();
+            for (map, _, _, v) in store.verif_dump_relations() { *total_by_map.entry(map).or_default() += v.len(); }
+            let t = store.index_totalcount();
+            let got_tot = [("dataset_data_annotation_map", t.0), ("textrelationmap", t.1), ("resource_annotation_metamap", t.2), ("dataset_annotation_metamap", t.3), ("annotation_annotation_map", t.4), ("key_annotation_metamap", t.6), ("data_annotation_metamap", t.7)];
+            for (m, n) in got_tot { if total_by_map.get(m).copied().unwrap_or(0) != n { bad.push(("shortcut/index_totalcount".into(), format!("{}: index_totalcount says {}, the index holds {}", m, n, total_by_map.get(m).copied().unwrap_or(0)))); } }
+            for a in store.annotations() {
+                let by = hs(&mut a.annotations());
+                let byh: Vec<usize> = a.annotations_handles().iter().map(|h| h.as_usize()).collect();
+                if by != byh { bad.push(("shortcut/annotations_handles".into(), format!("annotation {}: annotations() {:?}, annotations_handles() {:?}", a.handle().as_usize(), by, byh))); }
+                // what the annotation targets, itself or through the annotations it targets (an AnnotationSelector passes
+                // through to its target's targets, as it does for text)
+                let mut fk: Vec<FKey> = vec![];
+                let mut todo = vec![a.handle().as_usize()];
+                let mut seen_a: BTreeSet<usize> = BTreeSet::new();
+                while let Some(h) = todo.pop() {
+                    if !seen_a.insert(h) { continue; }
+                    if let Ok(x) = store.get(AnnotationHandle::new(h)) { let x: &Annotation = x; for k in forward_keys(store, x) { if let FKey::Ann(t) = k { todo.push(t); } fk.push(k); } }
+                }
+                let want_dm: BTreeSet<(usize, usize)> = fk.iter().filter_map(|k| if let FKey::DataMeta(s_, d) = k { Some((*s_, *d)) } else { None }).collect();
+                let got_dm: BTreeSet<(usize, usize)> = a.data_as_metadata().map(|d| (d.set().handle().as_usize(), d.handle().as_usize())).collect();
+                if want_dm != got_dm { bad.push(("shortcut/data_as_metadata".into(), format!("annotation {}: target names {:?}, data_as_metadata() {:?}", a.handle().as_usize(), want_dm, got_dm))); }
+                let want_km: BTreeSet<(usize, usize)> = fk.iter().filter_map(|k| if let FKey::KeyMeta(s_, d) = k { Some((*s_, *d)) } else { None }).collect();
+                let got_km: BTreeSet<(usize, usize)> = a.keys_as_metadata().map(|d| (d.set().handle().as_usize(), d.handle().as_usize())).collect();
+                if want_km != got_km { bad.push(("shortcut/keys_as_metadata".into(), format!("annotation {}: target names {:?}, keys_as_metadata() {:?}", a.handle().as_usize(), want_km, got_km))); }
+                for d in a.data() { if !a.has_data(&d) { bad.push(("shortcut/has_data".into(), format!("annotation {} carries {}.{} but has_data() says no", a.handle().as_usize(), d.set().handle().as_usize(), d.handle().as_usize()))); } }
+                for t in a.textselections() { if t.annotations_len() != t.annotations().count() { bad.push(("shortcut/textselection.annotations_len".into(), format!("{}-{}: annotations_len() {}, annotations() {}", t.begin(), t.end(), t.annotations_len(), t.annotations().count()))); } }
+            }
+            for ds in store.datasets() {
+                for d in ds.data() {
+                    if d.annotations_len() != d.annotations().count() { bad.push(("shortcut/data.annotations_len".into(), format!("data {}.{}: annotations_len() {}, annotations() {}", ds.handle().as_usize(), d.handle().as_usize(), d.annotations_len(), d.annotations().count()))); }
+                    for a in store.annotations().take(6) { let carries = a.data().any(|x| x.handle() == d.handle() && x.set().handle() == d.set().handle()); if a.has_data(&d) != carries { bad.push(("shortcut/has_data".into(), format!("annotation {} / data {}.{}: has_data() {}, data() {}", a.handle().as_usize(), ds.handle().as_usize(), d.handle().as_usize(), a.has_data(&d), carries))); } }
+                    for r in store.resources() {
+                        let want: Vec<usize> = r.annotations_as_metadata().filter(|x| x.data().any(|y| y.handle() == d.handle() && y.set().handle() == d.set().handle())).map(|x| x.handle().as_usize()).collect();
+                        let got: Vec<usize> = r.annotations_by_metadata_about(d.clone()).map(|x| x.handle().as_usize()).collect();
+                        if want != got || r.has_metadata_about(d.clone()) != !want.is_empty() { bad.push(("shortcut/annotations_by_metadata_about".into(), format!("resource {} / data {}.{}: {:?} vs {:?}, has_metadata_about {}", r.handle().as_usize(), ds.handle().as_usize(), d.handle().as_usize(), want, got, r.has_metadata_about(d.clone())))); }
+                    }
+                }
+                for k in ds.keys() {
+                    // annotations_count: the annotations that use the key through their data (annotations() of the key)
+                    let n = k.annotations().count();
+                    if k.annotations_count() != n { bad.push(("shortcut/key.annotations_count".into(), format!("key {}.{}: annotations_count() {}, annotations() {}", ds.handle().as_usize(), k.handle().as_usize(), k.annotations_count(), n))); }
+                }
+            }
+            bad
+        }));
+        match sc { Ok(v) => bad.extend(v), Err(p) => bad.push(("shortcut/panics".into(), p)) }
+    }
     // id maps (C03): exactly the live items that carry an id
     let mut want_ids: Vec<(&'static str, String, usize)> = vec![];
     for h in &live {
